@@ -147,14 +147,6 @@ func solveOne(o *Obl, file string, timeout int, tier string) {
 		o.Result, o.Solver, o.Secs, o.Out = res, solvers[0].name, secs, out
 		return
 	}
-	// goals with many conjuncts are decided conjunct-wise from the start (the whole formula mostly times out first)
-	if _, sk := skolemizeGoal(o.Goal); len(splitGoal(sk)) >= 8 {
-		trySplit(o, file, timeout)
-		if o.Result == want || o.Result == "sat" {
-			return
-		}
-		o.Result = ""
-	}
 	// first solver
 	res, out, secs := runSolver(solvers[0], file, timeout)
 	o.Result, o.Solver, o.Secs, o.Out = res, solvers[0].name, secs, out
